@@ -945,6 +945,15 @@ void gen_c18(Plan& p, bool thorough) {
     const auto& fl = pp.kkw ? kkw_fields : zkb_fields;
     km.set("vfield", fl[(slice + p.seed) % fl.size()]);
   }
+  if (slice < nslices && ti == 2 && !pp.kkw) {
+    // ZKB++ calls make a handful of allocations: every index x every kind of field carrying the single defect
+    for (auto& vf : zkb_fields)
+      for (int k = 0; k < N; k++) {
+        Case c = km;
+        c.set("vfield", vf).set("k", k).set("kexact", 1);
+        p.tasks[0].push_back(c);
+      }
+  }
   if (slice < nslices) {
     for (int k = 0; k < N; k++) {
       if (thorough ? ((uint64_t)k % nslices != slice) : (pp.kkw && k >= 64 && k % 41 != (int)(p.seed % 41) && k % 41 != 7))
